@@ -212,3 +212,45 @@ M('c07e-layers-not-counted', 'C07', 'break', TX,
 M('c07e-lzma-limit-dropped', 'C07', 'break', TX,
   '                    if (nblzma > tx->connp->cfg->response_lzma_layer_limit) {',
   '                    if (0) {', 'C07.e')
+
+# ---------------- C10
+RG, SG = 'htp/htp_request_generic.c', 'htp/htp_response_generic.c'
+M('c10a-limit-after-alloc', 'C10', 'break', RQ,
+  '    if (newlen > connp->in_tx->cfg->field_limit_hard) {\n        htp_log(connp, HTP_LOG_MARK, HTP_LOG_ERROR, 0, "Request buffer over the limit: size %zd limit %zd.",\n                newlen, connp->in_tx->cfg->field_limit_hard);        \n        return HTP_ERROR;\n    }\n',
+  '    if (newlen > connp->in_tx->cfg->field_limit_hard && connp->in_buf != NULL) {\n        htp_log(connp, HTP_LOG_MARK, HTP_LOG_ERROR, 0, "Request buffer over the limit: size %zd limit %zd.",\n                newlen, connp->in_tx->cfg->field_limit_hard);        \n        return HTP_ERROR;\n    }\n', 'C10.a')
+M('c10a-header-term-dropped', 'C10', 'break', RS,
+  '    if (connp->out_header != NULL) {\n        newlen += bstr_len(connp->out_header);\n    }\n\n    if (newlen > connp->out_tx->cfg->field_limit_hard) {',
+  '    if (newlen > connp->out_tx->cfg->field_limit_hard) {', 'C10.a')
+M('c10a-over-limit-truncates', 'C10', 'break', RS,
+  '                newlen, connp->out_tx->cfg->field_limit_hard);\n        return HTP_ERROR;',
+  '                newlen, connp->out_tx->cfg->field_limit_hard);\n        return HTP_OK;', 'C10.a')
+M('c10a-driver-ignores-buffer-failure', 'C10', 'break', RS,
+  '                    if (htp_connp_res_buffer(connp) != HTP_OK) {\n                        connp->out_status = HTP_STREAM_ERROR;\n                        return HTP_STREAM_ERROR;\n                    }',
+  '                    htp_connp_res_buffer(connp);', 'C10.a')
+M('c10a-finalize-ignores-again', 'C10', 'break', RQ,
+  '        if (htp_connp_req_consolidate_data(connp, &data, &len) != HTP_OK) {\n            return HTP_ERROR;\n        }\n    }\n    // Interpret remaining bytes as body data',
+  '        htp_connp_req_consolidate_data(connp, &data, &len);\n    }\n    // Interpret remaining bytes as body data', 'C10.a')
+M('c10a-keep-flip-test', 'C10', 'keep', RQ,
+  '    if (newlen > connp->in_tx->cfg->field_limit_hard) {\n        htp_log(connp, HTP_LOG_MARK, HTP_LOG_ERROR, 0, "Request buffer over the limit: size %zd limit %zd.",\n                newlen, connp->in_tx->cfg->field_limit_hard);        \n        return HTP_ERROR;\n    }\n',
+  '    if (!(newlen <= connp->in_tx->cfg->field_limit_hard)) {\n        htp_log(connp, HTP_LOG_MARK, HTP_LOG_ERROR, 0, "Request buffer over the limit: size %zd limit %zd.",\n                newlen, connp->in_tx->cfg->field_limit_hard);        \n        return HTP_ERROR;\n    }\n')
+M('c10b-folded-cap-deleted', 'C10', 'break', RQ,
+  '                    if (bstr_len(connp->in_header) < HTP_MAX_HEADER_FOLDED) {\n                        bstr *new_in_header',
+  '                    if (bstr_len(connp->in_header) < HTP_MAX_HEADER_FOLDED || len < 64) {\n                        bstr *new_in_header', 'C10.b')
+M('c10c-repetition-cap-deleted', 'C10', 'break', SG,
+  '            if (connp->out_tx->res_header_repetitions < HTP_MAX_HEADERS_REPETITIONS) {\n                connp->out_tx->res_header_repetitions++;\n            } else {\n                bstr_free(h->name);\n                bstr_free(h->value);\n                free(h);\n                return HTP_OK;\n            }',
+  '            connp->out_tx->res_header_repetitions++;', 'C10.c')
+M('c10c-counter-not-incremented', 'C10', 'break', RG,
+  '            if (connp->in_tx->req_header_repetitions < HTP_MAX_HEADERS_REPETITIONS) {\n                connp->in_tx->req_header_repetitions++;\n            } else {',
+  '            if (connp->in_tx->req_header_repetitions < HTP_MAX_HEADERS_REPETITIONS) {\n            } else {', 'C10.c')
+M('c10d-max-tx-test-weakened', 'C10', 'break', CP,
+  '    if (connp->cfg->max_tx > 0 &&\n        htp_list_size(connp->conn->transactions) > connp->cfg->max_tx) {',
+  '    if (connp->cfg->max_tx > 0 && connp->out_next_tx_index == 0 &&\n        htp_list_size(connp->conn->transactions) > connp->cfg->max_tx) {', 'C10.d')
+M('c10d-direct-create', 'C10', 'break', RS,
+  '        connp->out_tx = htp_connp_tx_create(connp);\n        if (connp->out_tx == NULL) {',
+  '        connp->out_tx = htp_tx_create(connp);\n        if (connp->out_tx == NULL) {', 'C10.d')
+M('c10e-auto-destroy-skipped', 'C10', 'break', TX,
+  '    if (tx->connp->cfg->tx_auto_destroy) {\n        htp_tx_destroy(tx);\n    }',
+  '    if (tx->connp->cfg->tx_auto_destroy && tx->index < 1024) {\n        htp_tx_destroy(tx);\n    }', 'C10.e')
+M('c10e-previous-chain-leaked', 'C10', 'break', TX,
+  '        if (tx->connp->out_decompressor != NULL) {\n            htp_tx_res_destroy_decompressors(tx->connp);\n        }\n',
+  '', 'C10.e')
